@@ -108,6 +108,24 @@ func c11Record(tier string, seed int64, emit func(interface{})) {
 			"rcb": transform.ReverseComplement(b), "rcab": transform.ReverseComplement(a + b)})
 	}
 	// expansion: words whose number of variants stays small
+	// one expansion of more than a million variants: the count and the number of distinct variants are taken by the
+	// harness (reported, not spec-decided: TLC does not hold a million strings), 400 of them go to TLC
+	{
+		s := []string{"NNNNNNNNNN", "NNNNNBNNNNN", "ANNNNNHNNNNNC"}[rng.Intn(3)]
+		v, err := variants.AllVariantsIUPAC(s)
+		distinct := map[string]struct{}{}
+		for _, x := range v {
+			distinct[x] = struct{}{}
+		}
+		sample := []string{}
+		for j := 0; j < 400 && len(v) > 0; j++ {
+			sample = append(sample, v[rng.Intn(len(v))])
+		}
+		if len(v) > 0 {
+			sample = append(sample, v[0], v[len(v)-1], v[len(v)/2])
+		}
+		emit(map[string]interface{}{"k": "varbig", "s": s, "n": len(v), "distinct": len(distinct), "sample": sample, "err": err != nil})
+	}
 	for i := 0; i < n; i++ {
 		m := 1 + rng.Intn(24)
 		b := make([]byte, m)
